@@ -99,15 +99,30 @@ def matches(v, q, rel=1e-9):
     return math.isfinite(v) and abs(v - float(e)) <= rel * max(1.0, abs(v))
 
 
-def value_near(func, B, vals, anchors=(), k=32):
+def exactly_dyadic(vals, maxden=64):
+    """All entries are dyadic rationals with small denominators: sums of products of such numbers are exact in
+    double precision, so a value computed AT them owes nothing to rounding (no boundary tolerance applies)."""
+    for v in vals:
+        v = float(v)
+        if not math.isfinite(v) or abs(v) > 64 or (v * maxden) != int(v * maxden):
+            return False
+    return True
+
+
+def value_near(func, B, vals, anchors=(), k=32, hold_dyadic=False):
     """func at the point, or - when that is +inf - at a point within 1e-9 (relative) of it where func is finite.
     An indicator value that flips within rounding distance of the boundary of its set is not a verdict.
     Candidates: a 1e-9 step towards every anchor (points where func is known to be finite: by convexity of the
-    domain such a step from a boundary point leads inside), towards 0, and a few random 1e-9 perturbations."""
+    domain such a step from a boundary point leads inside), towards 0, and a few random 1e-9 perturbations.
+    hold_dyadic: coordinates that are exactly dyadic (e.g. y_i = 1.0) are NOT perturbed - they carry no rounding,
+    a documented boundary convention (0 log 0 = 0) has to hold there as it stands."""
     v = float(func(B.el(vals)))
     if math.isfinite(v):
         return v, False
     arr = np.array([float(t) for t in vals])
+    hold = np.array([exactly_dyadic([t]) for t in arr]) if hold_dyadic else np.zeros(arr.shape, dtype=bool)
+    if hold.all():
+        return v, False
     scale = 1e-9 * max(1.0, float(np.max(np.abs(arr))) if arr.size else 1.0)
     cands = []
     for a in list(anchors) + [np.zeros_like(arr)]:
@@ -119,6 +134,7 @@ def value_near(func, B, vals, anchors=(), k=32):
     for _ in range(k):
         cands.append(arr + scale * prn.uniform(-1, 1, size=arr.shape))
     for c in cands:
+        c = np.where(hold, arr, c)
         try:
             w = float(func(B.el(c)))
         except Exception:
@@ -141,21 +157,47 @@ def sp_desc(kind, m, n, W):
     return {'kind': kind, 'm': m, 'n': n, 'W': [qj(Fraction(w)) for w in W]}
 
 
-def build_space(sp):
+def axes_of(n, layout):
+    """How the n points of one component are laid out on axes (the abstract space record stays [kind, m, n, W];
+    flat index = C order).  0: one axis ; 1: (1, n) ; 2: most balanced 2-d factorisation (or (n, 1)) ; 3: 3 axes."""
+    if layout == 0:
+        return (n,)
+    if layout == 1:
+        return (1, n)
+    a = max(d for d in range(1, int(n ** 0.5) + 1) if n % d == 0)
+    if layout == 2:
+        return (n // a, a) if a > 1 else (n, 1)
+    return (1, n // a, a) if a > 1 else (1, n, 1)
+
+
+def _tensor(shape, w):
+    return odl.rn(shape if len(shape) > 1 else shape[0], weighting=float(w)) if w != 1 else \
+        odl.rn(shape if len(shape) > 1 else shape[0])
+
+
+def _discr(shape, vol):
+    """uniform_discr with cell volume `vol` and UNEQUAL cell sides on several axes"""
+    if len(shape) == 1:
+        return odl.uniform_discr(0, float(shape[0] * vol), shape[0])
+    sides = [2.0] * (len(shape) - 1)
+    sides.append(float(vol) / (2.0 ** (len(shape) - 1)))
+    return odl.uniform_discr([0] * len(shape), [s * k for s, k in zip(sides, shape)], shape)
+
+
+def build_space(sp, layout=0):
     kind, m, n = sp['kind'], sp['m'], sp['n']
     W = frv(sp['W'])
+    shape = axes_of(n, layout)
     if kind == 'rn':
-        return odl.rn(n)
+        return _tensor(shape, 1)
     if kind == 'rnw':
-        return odl.rn(n, weighting=float(W[0]))
+        return _tensor(shape, W[0])
     if kind == 'discr':
-        return odl.uniform_discr(0, float(n * W[0]), n)
+        return _discr(shape, W[0])
     if kind == 'power':
-        return odl.uniform_discr(0, float(n * W[0]), n) ** m
+        return _discr(shape, W[0]) ** m
     if kind == 'pspace':
-        a = odl.rn(n, weighting=float(W[0])) if W[0] != 1 else odl.rn(n)
-        b = odl.uniform_discr(0, float(n * W[n]), n)
-        return odl.ProductSpace(a, b)
+        return odl.ProductSpace(_tensor(shape, W[0]), _discr(shape, W[n]))
     raise ValueError(kind)
 
 
@@ -332,6 +374,8 @@ def build(f, space, sp, variant=0):
     if op == 'Bregman':
         y, p = vec(f['v']), vec(f['u'])
         return g.bregman(y, p) if variant == 0 else S.BregmanDistance(g, y, p)
+    if op == 'CompPow':
+        return g * odl.PowerOperator(space, int(s))
     if op == 'Comp':
         n = sp['m'] * sp['n']
         M = np.array([float(t) for t in frv(f['v'])]).reshape(n, n)
@@ -377,10 +421,28 @@ def all_functional_classes():
 
 
 # ----------------------------------------------------------------------------- signatures
+def param_class(f):
+    """boundary class of the parameters of the first leaf (family-level, never the number itself)"""
+    while f['args']:
+        f = f['args'][0]
+    op, s, c = f['op'], fr(f['s']), fr(f['c'])
+    if op == 'IndSum':
+        return 'sum_value=0' if s == 0 else 'sum_value!=0'
+    if op == 'Huber':
+        return 'gamma=0' if s == 0 else 'gamma>0'
+    if op == 'IndBox':
+        return 'lower=upper' if s == c else 'lower<upper'
+    if op in ('GroupL1', 'IndGroupBall'):
+        return 'exponent=%s' % pexp(f)
+    if op in ('KL', 'KLcc'):
+        return 'no-prior' if not f['v'] else ('prior-with-zeros' if any(fr(t) == 0 for t in f['v']) else 'prior>0')
+    return '-'
+
+
 def signature(sp, f, clause, extra=None):
     W = frv(sp['W'])
     ops = ops_of(f)
-    sig = {'leaf': first_leaf(f),
+    sig = {'leaf': first_leaf(f), 'param': param_class(f),
            'ops': '+'.join(sorted(set(ops))),
            'space': sp['kind'],
            'weight': 'unit' if all(w == 1 for w in W) else 'weighted',
@@ -538,6 +600,14 @@ class EventSink(object):
             vres = list(ex.map(val, self.files))
         fails = {}
         for p, res in vres:
+            if res.status != 'ok':          # keep the event TLC stopped at, for the machinery-failure message
+                ls = re.findall(r'\bl = (\d+)', res.output)
+                try:
+                    with open(p) as fh:
+                        line = fh.read().splitlines()[int(ls[-1]) - 1]
+                    res.output += '\nEVENT AT FAILURE: ' + line[:1500]
+                except Exception:
+                    pass
             ctx.add_tlc('trace-' + os.path.basename(p), res)
             for _line, eid, clauses_text in parse_fails(res.output):
                 fails[eid] = re.findall(r'"\s*([^"]+?)\s*"', clauses_text)
@@ -573,13 +643,27 @@ def validate_events(ctx, events, tag, chunk=1500, max_workers=12):
 _WEIGHTS_CHECKED = set()
 
 
+def _needs_flat(f):
+    if f['op'] == 'Comp':
+        return True
+    if f['op'] == 'Quad' and f['v']:
+        d = frv(f['v'])
+        if not all(t == d[0] for t in d):
+            return True
+    return any(_needs_flat(a) for a in f['args'])
+
+
 class Built(object):
     """A program concretised on real ODL objects."""
 
-    def __init__(self, sp, f, variant=0, factory=None):
+    def __init__(self, sp, f, variant=0, factory=None, layout=0):
         self.sp, self.f, self.variant = sp, f, variant
-        self.space = build_space(sp)
-        key = json.dumps(sp, sort_keys=True)
+        # operators that need a one-axis tensor space (matrices) keep the flat layout
+        if layout and any(o == 'Comp' or (o == 'Quad') for o in ops_of(f)) and _needs_flat(f):
+            layout = 0
+        self.layout = layout
+        self.space = build_space(sp, layout)
+        key = json.dumps(sp, sort_keys=True) + str(layout)
         if key not in _WEIGHTS_CHECKED:
             # the real space carries exactly the weights the specification computes with
             if not weights_ok(self.space, sp):
